@@ -157,3 +157,27 @@ def require_views(h, what):
     ps = view_problems(h)
     if ps:
         raise Violation("stale-view", f"{what}: {ps[0]}" + (f" (+{len(ps) - 1} more)" if len(ps) > 1 else ""), {"view": ps[0].split(": ")[1].split(" ")[0]})
+
+
+def attr_state(h):
+    """path -> numeric state of every fillable node, read from the live attributes (not from toJson): an observation
+    of content that is independent of the serialiser."""
+    import math  # noqa: PLC0415
+
+    def num(x):
+        try:
+            x = float(x)
+        except (TypeError, ValueError):
+            return repr(x)
+        return "nan" if math.isnan(x) else x
+
+    out = {}
+    for p, n in walk(h):
+        st_ = {"type": n.name, "entries": num(n.entries)}
+        for f in ("sum", "mean", "min", "max"):
+            if f in vars(n):
+                st_[f] = num(getattr(n, f))
+        if n.name == "Bag":
+            st_["values"] = sorted((repr(k), num(v)) for k, v in n.values.items())
+        out["/".join(map(str, p))] = st_
+    return out
